@@ -185,11 +185,20 @@ def unreset_attrs(ctx):
         return _CACHE[key]
     from .rules.C08 import tree_method_run
     f, outs = tree_method_run(ctx, "initialize", {"state_info": Const(True), "log_info": Const(True)})
-    reset = set()
+    # reset = stored for *every* object of the class on every path (a traversal that can skip objects -- filtered, left early, nested
+    # in a loop over another collection -- resets some of them only)
+    from .fanout import FanOut
+
+    def key_of(e):
+        return (ctx.types.field_owner(e.cls, e.attr) or e.cls, e.attr) if isinstance(e, Store) and e.cls else None
+    reset = None
     for st, ex in outs:
-        for e in flatten(st.trace):
-            if isinstance(e, Store) and e.cls:
-                reset.add((ctx.types.field_owner(e.cls, e.attr) or e.cls, e.attr))
+        if ex is not None and ex[0] == "raise":
+            continue
+        c = FanOut(ctx, key_of).counts(st.trace)
+        full = {k for k, v in c.items() if -1 not in v and v != {0}}   # (a store under a condition of the body -- "if it is None" -- still counts)
+        reset = full if reset is None else (reset & full)
+    reset = reset or set()
     sim = ctx.repo.method(PROJECT, "simulate")
     # what simulate() itself assigns before its loop -- directly, or in a private helper of the project that its prologue calls
     # unconditionally (`self.__prepare(...)`)
